@@ -321,11 +321,16 @@ def dip_scalar_text(kind, v):
         return str(v)
     if kind == "float":
         return repr(v)
+    if v.endswith("\\"):
+        # a quoted value cannot end with a backslash (it would take the closing quote with it): bare form or give up the ending
+        if re.fullmatch(r"[^# '\"{(]+", v):
+            return v
+        v = v + "_"
     if "'" not in v:
         return "'%s'" % v
     if '"' not in v:
         return '"%s"' % v
-    return '"""%s"""' % v
+    return '"%s"' % v.replace("'", "\\'").replace('"', '\\"')      # DIP reads \' and \" as quote characters
 
 
 def dip_source(specs):
@@ -340,8 +345,11 @@ def dip_source(specs):
         if isinstance(value, list):
             dims = ",".join(str(d) for d in np.shape(value))
             txt = json.dumps(value, separators=(",", ":"))
+            if kind == "str":
+                # quotes and backslashes inside elements as JSON unicode escapes: no collision with DIP's own quoting
+                txt = re.sub(r'\\(["\\])', lambda m: "\\u%04x" % ord(m.group(1)), txt).replace("'", "\\u0027")
             if kind == "str" or " " in txt:
-                txt = "'%s'" % txt if "'" not in txt else '"""%s"""' % txt
+                txt = "'%s'" % txt
             line = "%s %s[%s] = %s" % (name, kw, dims, txt)
         else:
             line = "%s %s = %s" % (name, kw, dip_scalar_text(kind, value))
@@ -411,9 +419,16 @@ SPECIAL = "\"\\$'#!{}[],;:=()%&*"
 WORDS = ["Configuration test", "abc", "x", "run 12", "a_b", "Hello World 42", "gamma=5/3", "T", "file.txt", "a,b", "{x}", "[1]"]
 
 
+HOSTILE = ['a\\"b', "it\\'s", '$HOME', '`ls`', '\\n', 'x\\', '""', "''", '\\\\', 'a" b', "q' r", '${x}', '$(y)', '!!', '\\"', "\\'",
+           '"', "'", '\\', 'C:\\dir', '%s %d', '/* c */', '// c', '\\u0041', '\\x41', "\\0", '??/', "a''b", 'a""b', '&amp;', ' #', '#']
+
+
 def gen_string(rng, special):
     if not special and rng.random() < 0.5:
         return rng.choice(WORDS)
+    if special and rng.random() < 0.4:
+        s = "".join(rng.choice(HOSTILE + WORDS[:4]) for _ in range(rng.randint(1, 3))).strip()
+        return s or "s"
     n = rng.randint(1, 10)
     s = "".join(rng.choice(BENIGN + (SPECIAL if special else "")) for _ in range(n)).strip()
     return s or "s"
@@ -1070,6 +1085,8 @@ def classify(backend, p, reason, obs):
     if backend == "dip" and isinstance(p.value, list):
         return "dip:array"
     if p.kind == "str":
+        if backend == "dip" and not isinstance(p.value, list) and p.value.endswith("\\"):
+            return "dip:string-trailing-backslash"
         if any('"' in s for s in flat):
             return "%s:string-with-quote" % backend
         if any("\\" in s for s in flat) and backend != "fortran":
@@ -1302,19 +1319,14 @@ def judge_case(ctx, c, r, impl, observed, info):
                           (c.query, c.tags, keys, [p.name for p in sel]), c.replay(impl_keys=keys))
         if keys != m["selected"]:
             ctx.disagreement("select", c.replay(), "impl %s model %s" % (keys, m["selected"]))
-    has_dip_array = b == "dip" and any(isinstance(p.value, list) for p in sel)
     # ---- (i) exporter model vs real exporter: equal as strings
-    if b not in DATA and not has_dip_array:
+    if b not in DATA:
         mt = m["text"]
         it = text if keys is not None else None
         if mt != it:
             ctx.disagreement("export:" + b, c.replay(), "impl %r model %r" % (it if it is not None else text, mt))
     if keys is None:
-        if has_dip_array:
-            p = next(p for p in sel if isinstance(p.value, list))
-            ctx.violation(classify(b, p, "raises", "err"), "DIP export of array parameter %s: %s" % (p.name, text),
-                          c.replay(param=p.brief()))
-        elif m["text"] is not None or b in DATA:
+        if m["text"] is not None or b in DATA:
             ctx.violation("%s:export-raises" % b, "export raises: %s" % text, c.replay())
         return
     if b in TYPED:
